@@ -580,7 +580,22 @@ func (s *Server) getWorkspaceResolved(docURI protocol.DocumentURI) *include.Reso
 			return resolved
 		}
 	}
-	return s.GetResolved(docURI)
+	return s.currentResolved(docURI)
+}
+
+// currentResolved resolves the include tree of an open document from its
+// current text. The tree stored by the background diagnostics run lags behind
+// the text until the analysis of the latest change has finished, so requests
+// answered from it were computed from an older version of the document. The
+// loader caches parsed include files, so this costs one parse of the document.
+func (s *Server) currentResolved(docURI protocol.DocumentURI) *include.ResolvedJournal {
+	doc, ok := s.GetDocument(docURI)
+	path := uriToPath(docURI)
+	if !ok || path == "" {
+		return nil
+	}
+	resolved, _ := s.loader.LoadFromContent(path, doc)
+	return resolved
 }
 
 // resolvedForDocument returns the resolved tree used to answer cross-file
@@ -599,7 +614,7 @@ func (s *Server) resolvedForDocument(docURI protocol.DocumentURI) (*include.Reso
 			}
 		}
 	}
-	return s.GetResolved(docURI), docPath
+	return s.currentResolved(docURI), docPath
 }
 
 func (s *Server) RootURI() string {
